@@ -30,14 +30,17 @@ Fixpoint nearest_container (cfg : bconfig) (s : sstate) (open : list nat) : N :=
                  end
   end.
 
-(* text is gathered until the next non-text event, then becomes one string node *)
+(* text is gathered until the next non-text event, then becomes one string node; whitespace-only TEXT outside
+   whitespace-preserving elements collapses, the content of special strings (comment, CDATA, doctype, declaration,
+   processing instruction) never does *)
 Definition s_flush (cfg : bconfig) (s : sstate) (cls : option N) : sstate :=
   match s_pending s with
   | [] => s
   | chunks =>
       let text := concat (rev chunks) in
       let preserved := existsb (fun x => memS (s_name s x) (c_pw cfg)) (s_open s) in
-      let text := if negb preserved && all_in (c_spaces cfg) text
+      let special := match cls with Some c => preformatted_cls c | None => false end in
+      let text := if negb special && negb preserved && all_in (c_spaces cfg) text
                   then (if memN 10%N text then [10%N] else [32%N]) else text in
       let c := match cls with Some c => if N.eqb c 0 then nearest_container cfg s (s_open s) else c
                             | None => nearest_container cfg s (s_open s) end in
